@@ -207,18 +207,12 @@ class MemoryWorkflowStore(AbstractWorkflowStore):
 
         Uses list-index cursoring rather than sequence-field cursoring to
         handle duplicate sequence numbers (which occur when multiple internal
-        adapters share the same run_id).
+        adapters share the same run_id). Events with ``sequence <=
+        after_sequence`` are skipped while iterating, so a subscriber whose
+        cursor is ahead of the log does not receive them when they are
+        appended later.
         """
-        # Determine starting index: skip events with sequence <= after_sequence
-        all_events = self.events.get(run_id, [])
-        if after_sequence >= 0:
-            cursor = 0
-            for i, e in enumerate(all_events):
-                if e.sequence <= after_sequence:
-                    cursor = i + 1
-        else:
-            cursor = 0
-
+        cursor = 0
         condition = self._get_or_create_condition(run_id)
 
         while True:
@@ -230,7 +224,9 @@ class MemoryWorkflowStore(AbstractWorkflowStore):
                     continue
 
             for event in batch:
-                yield event
                 cursor += 1
+                if event.sequence <= after_sequence:
+                    continue
+                yield event
                 if self._is_terminal_event(event):
                     return
